@@ -293,6 +293,7 @@ def body_factory(tier, seed):
         # 4e. cold start, sequentially: the decimal-validated messages with whole-number and fractional values in either order
         from harness.props import c04
         c04.cold_orders(rep, PROP)
+        V.cold_cross_versions(rep, PROP)
         # 5. the model: pure verdict of the same requests (the theorem says history cannot matter)
         if support_ok:
             M._validators.clear()
